@@ -17,72 +17,72 @@ Lemma c06_degree_ok : (2 <= Gen_C06.defaultBTreeDegree)%Z.
 Proof. vm_compute. discriminate. Qed.
 
 Lemma skel_processRegionHeartbeat_ok : Gen_C06.skel_processRegionHeartbeat =
-  [RLock "c"; Assign "storage" ":= c.storage"; Assign "coreCluster" ":= c.core"; RUnlock "c"; Call "PreCheckPutRegion"; Assign "origin" ":= coreCluster.PreCheckPutRegion(region)"; IfE "err != nil" [Ret] []; IfE "origin == nil" [Assign "saveKV" "= true"; Assign "saveCache" "= true"; Assign "isNew" "= true"] [Call "GetRegionEpoch"; Call "GetRegionEpoch"; IfE "r.GetVersion() > o.GetVersion()" [Assign "saveKV" "= true"; Assign "saveCache" "= true"] []; IfE "r.GetConfVer() > o.GetConfVer()" [Assign "saveKV" "= true"; Assign "saveCache" "= true"] []; IfE "region.GetLeader().GetId() != origin.GetLeader().GetId()" [IfE "origin.GetLeader().GetId() == 0" [Assign "isNew" "= true"] []; Assign "saveCache" "= true"; Assign "needSync" "= true"] []; Call "SortedPeersStatsEqual"; IfE "!core.SortedPeersStatsEqual(region.GetDownPeers(), origin.GetDownPeers())" [Assign "saveCache" "= true"; Assign "needSync" "= true"] []; Call "SortedPeersEqual"; IfE "!core.SortedPeersEqual(region.GetPendingPeers(), origin.GetPendingPeers())" [Assign "saveCache" "= true"; Assign "needSync" "= true"] []; IfE "len(region.GetPeers()) != len(origin.GetPeers())" [Assign "saveKV" "= true"; Assign "saveCache" "= true"] []; IfE "region.GetApproximateSize() != origin.GetApproximateSize() || region.GetApproximateKeys() != origin.GetApproximateKeys()" [Assign "saveCache" "= true"] []; IfE "region.GetRoundBytesWritten() != origin.GetRoundBytesWritten() || region.GetRoundBytesRead() != origin.GetRoundBytesRead()" [Assign "saveCache" "= true"; Assign "needSync" "= true"] []; IfE "region.GetReplicationStatus().GetState() != replication_modepb.RegionReplicationState_UNKNOWN && (region.GetReplicationStatus().GetState() != origin.GetReplicationStatus().GetState() || region.GetReplicationStatus().GetStateId() != origin.GetReplicationStatus().GetStateId())" [Assign "saveCache" "= true"] []]; IfE "!saveKV && !saveCache && !isNew" [Ret] []; Lock "c"; IfE "saveCache" [Call "PreCheckPutRegion"; IfE "err != nil" [Unlock "c"; Ret] []; Call "PutRegion"; Assign "overlaps" "= c.core.PutRegion(region)"; ForE [IfE "c.regionStats != nil" [Call "ClearDefunctRegion"] []; Call "ClearDefunctRegion"]; ForE [Call "updateStoreStatusLocked"]] []; IfE "isNew" [Call "collect"] []; IfE "c.regionStats != nil" [Call "Observe"] []; Unlock "c"; IfE "storage != nil" [ForE [Call "DeleteRegion"]; IfE "saveKV" [Call "SaveRegion"] []] []; Ret].
+  [RLock "v0"; Assign "v2" ":= v0.storage"; Assign "v3" ":= v0.core"; Assign "v4" ":= v0.hotStat"; RUnlock "v0"; Call "PreCheckPutRegion"; Assign "v5" ":= v3.PreCheckPutRegion(v1)"; Assign "v6" ":= v3.PreCheckPutRegion(v1)"; IfE "v6 != nil" [Ret] []; Assign "v7" ":= v1.GetInterval()"; Assign "v8" ":= v7.GetEndTimestamp() - v7.GetStartTimestamp()"; ForE [Assign "v10" ":= core.NewPeerInfo(v9, v1.GetWriteLoads(), v8)"]; IfE "v5 == nil" [Assign "v11" "= true"; Assign "v12" "= true"; Assign "v13" "= true"] [Call "GetRegionEpoch"; Assign "v15" ":= v1.GetRegionEpoch()"; Call "GetRegionEpoch"; Assign "v16" ":= v5.GetRegionEpoch()"; IfE "v15.GetVersion() > v16.GetVersion()" [Assign "v11" "= true"; Assign "v12" "= true"] []; IfE "v15.GetConfVer() > v16.GetConfVer()" [Assign "v11" "= true"; Assign "v12" "= true"] []; IfE "v1.GetLeader().GetId() != v5.GetLeader().GetId()" [IfE "v5.GetLeader().GetId() == 0" [Assign "v13" "= true"] []; Assign "v12" "= true"; Assign "v14" "= true"] []; Call "SortedPeersStatsEqual"; IfE "!core.SortedPeersStatsEqual(v1.GetDownPeers(), v5.GetDownPeers())" [Assign "v12" "= true"; Assign "v14" "= true"] []; Call "SortedPeersEqual"; IfE "!core.SortedPeersEqual(v1.GetPendingPeers(), v5.GetPendingPeers())" [Assign "v12" "= true"; Assign "v14" "= true"] []; IfE "len(v1.GetPeers()) != len(v5.GetPeers())" [Assign "v11" "= true"; Assign "v12" "= true"] []; IfE "v1.GetApproximateSize() != v5.GetApproximateSize() || v1.GetApproximateKeys() != v5.GetApproximateKeys()" [Assign "v12" "= true"] []; IfE "v1.GetRoundBytesWritten() != v5.GetRoundBytesWritten() || v1.GetRoundBytesRead() != v5.GetRoundBytesRead()" [Assign "v12" "= true"; Assign "v14" "= true"] []; IfE "v1.GetReplicationStatus().GetState() != replication_modepb.RegionReplicationState_UNKNOWN && (v1.GetReplicationStatus().GetState() != v5.GetReplicationStatus().GetState() || v1.GetReplicationStatus().GetStateId() != v5.GetReplicationStatus().GetStateId())" [Assign "v12" "= true"] []]; IfE "!v11 && !v12 && !v13" [Ret] []; Lock "v0"; IfE "v12" [Call "PreCheckPutRegion"; Assign "v18" ":= v0.core.PreCheckPutRegion(v1)"; IfE "v18 != nil" [Unlock "v0"; Ret] []; Call "PutRegion"; Assign "v17" "= v0.core.PutRegion(v1)"; ForE [IfE "v0.regionStats != nil" [Call "ClearDefunctRegion"] []; Call "ClearDefunctRegion"]; Assign "v20" ":= make(map[uint64]struct{})"; ForE [Call "updateStoreStatusLocked"]] []; IfE "v13" [Call "collect"] []; IfE "v0.regionStats != nil" [Call "Observe"] []; Assign "v24" ":= v0.changedRegions"; Unlock "v0"; IfE "v2 != nil" [ForE [Call "DeleteRegion"; Assign "v26" ":= v2.DeleteRegion(v25.GetMeta())"]; IfE "v11" [Call "SaveRegion"; Assign "v27" ":= v2.SaveRegion(v1.GetMeta())"] []] []; Ret].
 Proof. reflexivity. Qed.
 
 (* server/core/region_tree.go: (regionTree).length, body *)
 Lemma src_tree_length_ok : Gen_C06.src_tree_length =
-  "{ if t == nil { return 0 } return t.tree.Len() }".
+  "{ if v0 == nil { return 0 } return v0.tree.Len() }".
 Proof. reflexivity. Qed.
 
 (* server/core/region_tree.go: (regionTree).getOverlaps, body *)
 Lemma src_tree_getOverlaps_ok : Gen_C06.src_tree_getOverlaps =
-  "{ item := &regionItem{region: region} result := t.find(region) if result == nil { result = item } var overlaps []*RegionInfo t.tree.AscendGreaterOrEqual(result, func(i btree.Item) bool { over := i.(*regionItem) if len(region.GetEndKey()) > 0 && bytes.Compare(region.GetEndKey(), over.region.GetStartKey()) <= 0 { return false } overlaps = append(overlaps, over.region) return true }) return overlaps }".
+  "{ v2 := &regionItem{region: v1} v3 := v0.find(v1) if v3 == nil { v3 = v2 } var v4 []*RegionInfo v0.tree.AscendGreaterOrEqual(v3, func(v5 btree.Item) bool { v6 := v5.(*regionItem) if len(v1.GetEndKey()) > 0 && bytes.Compare(v1.GetEndKey(), v6.region.GetStartKey()) <= 0 { return false } v4 = append(v4, v6.region) return true }) return v4 }".
 Proof. reflexivity. Qed.
 
 (* server/core/region_tree.go: (regionTree).update, body *)
 Lemma src_tree_update_ok : Gen_C06.src_tree_update =
-  "{ region := item.region t.totalSize += region.approximateSize overlaps := t.getOverlaps(region) for _, old := range overlaps { log.Debug(""overlapping region"", zap.Uint64(""region-id"", old.GetID()), logutil.ZapRedactStringer(""delete-region"", RegionToHexMeta(old.GetMeta())), logutil.ZapRedactStringer(""update-region"", RegionToHexMeta(region.GetMeta()))) t.tree.Delete(&regionItem{old}) t.totalSize -= old.approximateSize } t.tree.ReplaceOrInsert(item) return overlaps }".
+  "{ v2 := v1.region v0.totalSize += v2.approximateSize v3 := v0.getOverlaps(v2) for _, v4 := range v3 { v0.tree.Delete(&regionItem{v4}) v0.totalSize -= v4.approximateSize } v0.tree.ReplaceOrInsert(v1) return v3 }".
 Proof. reflexivity. Qed.
 
 (* server/core/region_tree.go: (regionTree).updateStat, body *)
 Lemma src_tree_updateStat_ok : Gen_C06.src_tree_updateStat =
-  "{ t.totalSize += region.approximateSize t.totalSize -= origin.approximateSize }".
+  "{ v0.totalSize += v2.approximateSize v0.totalSize -= v1.approximateSize }".
 Proof. reflexivity. Qed.
 
 (* server/core/region_tree.go: (regionTree).remove, body *)
 Lemma src_tree_remove_ok : Gen_C06.src_tree_remove =
-  "{ if t.length() == 0 { return nil } result := t.find(region) if result == nil || result.region.GetID() != region.GetID() { return nil } t.totalSize -= region.approximateSize return t.tree.Delete(result) }".
+  "{ if v0.length() == 0 { return nil } v2 := v0.find(v1) if v2 == nil || v2.region.GetID() != v1.GetID() { return nil } v0.totalSize -= v1.approximateSize return v0.tree.Delete(v2) }".
 Proof. reflexivity. Qed.
 
 (* server/core/region_tree.go: (regionTree).search, body *)
 Lemma src_tree_search_ok : Gen_C06.src_tree_search =
-  "{ region := &RegionInfo{meta: &metapb.Region{StartKey: regionKey}} result := t.find(region) if result == nil { return nil } return result.region }".
+  "{ v2 := &RegionInfo{meta: &metapb.Region{StartKey: v1}} v3 := v0.find(v2) if v3 == nil { return nil } return v3.region }".
 Proof. reflexivity. Qed.
 
 (* server/core/region_tree.go: (regionTree).searchPrev, body *)
 Lemma src_tree_searchPrev_ok : Gen_C06.src_tree_searchPrev =
-  "{ curRegion := &RegionInfo{meta: &metapb.Region{StartKey: regionKey}} curRegionItem := t.find(curRegion) if curRegionItem == nil { return nil } prevRegionItem, _ := t.getAdjacentRegions(curRegionItem.region) if prevRegionItem == nil { return nil } if !bytes.Equal(prevRegionItem.region.GetEndKey(), curRegionItem.region.GetStartKey()) { return nil } return prevRegionItem.region }".
+  "{ v2 := &RegionInfo{meta: &metapb.Region{StartKey: v1}} v3 := v0.find(v2) if v3 == nil { return nil } v4, _ := v0.getAdjacentRegions(v3.region) if v4 == nil { return nil } if !bytes.Equal(v4.region.GetEndKey(), v3.region.GetStartKey()) { return nil } return v4.region }".
 Proof. reflexivity. Qed.
 
 (* server/core/region_tree.go: (regionTree).find, body *)
 Lemma src_tree_find_ok : Gen_C06.src_tree_find =
-  "{ item := &regionItem{region: region} var result *regionItem t.tree.DescendLessOrEqual(item, func(i btree.Item) bool { result = i.(*regionItem) return false }) if result == nil || !result.Contains(region.GetStartKey()) { return nil } return result }".
+  "{ v2 := &regionItem{region: v1} var v3 *regionItem v0.tree.DescendLessOrEqual(v2, func(v4 btree.Item) bool { v3 = v4.(*regionItem) return false }) if v3 == nil || !v3.Contains(v1.GetStartKey()) { return nil } return v3 }".
 Proof. reflexivity. Qed.
 
 (* server/core/region_tree.go: (regionTree).scanRange, body *)
 Lemma src_tree_scanRange_ok : Gen_C06.src_tree_scanRange =
-  "{ region := &RegionInfo{meta: &metapb.Region{StartKey: startKey}} startItem := t.find(region) if startItem == nil { startItem = &regionItem{region: &RegionInfo{meta: &metapb.Region{StartKey: startKey}}} } t.tree.AscendGreaterOrEqual(startItem, func(item btree.Item) bool { return f(item.(*regionItem).region) }) }".
+  "{ v3 := &RegionInfo{meta: &metapb.Region{StartKey: v1}} v4 := v0.find(v3) if v4 == nil { v4 = &regionItem{region: &RegionInfo{meta: &metapb.Region{StartKey: v1}}} } v0.tree.AscendGreaterOrEqual(v4, func(v5 btree.Item) bool { return v2(v5.(*regionItem).region) }) }".
 Proof. reflexivity. Qed.
 
 (* server/core/region_tree.go: (regionTree).scanRanges, body *)
 Lemma src_tree_scanRanges_ok : Gen_C06.src_tree_scanRanges =
-  "{ if t.length() == 0 { return nil } var res []*RegionInfo t.scanRange([]byte(""""), func(region *RegionInfo) bool { res = append(res, region) return true }) return res }".
+  "{ if v0.length() == 0 { return nil } var v1 []*RegionInfo v0.scanRange([]byte(""""), func(v2 *RegionInfo) bool { v1 = append(v1, v2) return true }) return v1 }".
 Proof. reflexivity. Qed.
 
 (* server/core/region_tree.go: (regionTree).getAdjacentRegions, body *)
 Lemma src_tree_getAdjacentRegions_ok : Gen_C06.src_tree_getAdjacentRegions =
-  "{ item := &regionItem{region: &RegionInfo{meta: &metapb.Region{StartKey: region.GetStartKey()}}} var prev, next *regionItem t.tree.AscendGreaterOrEqual(item, func(i btree.Item) bool { if bytes.Equal(item.region.GetStartKey(), i.(*regionItem).region.GetStartKey()) { return true } next = i.(*regionItem) return false }) t.tree.DescendLessOrEqual(item, func(i btree.Item) bool { if bytes.Equal(item.region.GetStartKey(), i.(*regionItem).region.GetStartKey()) { return true } prev = i.(*regionItem) return false }) return prev, next }".
+  "{ v2 := &regionItem{region: &RegionInfo{meta: &metapb.Region{StartKey: v1.GetStartKey()}}} var v3, v4 *regionItem v0.tree.AscendGreaterOrEqual(v2, func(v5 btree.Item) bool { if bytes.Equal(v2.region.GetStartKey(), v5.(*regionItem).region.GetStartKey()) { return true } v4 = v5.(*regionItem) return false }) v0.tree.DescendLessOrEqual(v2, func(v6 btree.Item) bool { if bytes.Equal(v2.region.GetStartKey(), v6.(*regionItem).region.GetStartKey()) { return true } v3 = v6.(*regionItem) return false }) return v3, v4 }".
 Proof. reflexivity. Qed.
 
 (* server/core/region_tree.go: (regionTree).RandomRegion, body *)
 Lemma src_tree_RandomRegion_ok : Gen_C06.src_tree_RandomRegion =
-  "{ if t.length() == 0 { return nil } if len(ranges) == 0 { ranges = []KeyRange{NewKeyRange("""", """")} } for _, i := range rand.Perm(len(ranges)) { var endIndex int startKey, endKey := ranges[i].StartKey, ranges[i].EndKey startRegion, startIndex := t.tree.GetWithIndex(&regionItem{region: &RegionInfo{meta: &metapb.Region{StartKey: startKey}}}) if len(endKey) != 0 { _, endIndex = t.tree.GetWithIndex(&regionItem{region: &RegionInfo{meta: &metapb.Region{StartKey: endKey}}}) } else { endIndex = t.tree.Len() } if startIndex != 0 && startRegion == nil && t.tree.GetAt(startIndex-1).(*regionItem).Contains(startKey) { startIndex-- } if endIndex <= startIndex { if len(endKey) > 0 && bytes.Compare(startKey, endKey) > 0 { log.Error(""wrong range keys"", logutil.ZapRedactString(""start-key"", string(HexRegionKey(startKey))), logutil.ZapRedactString(""end-key"", string(HexRegionKey(endKey))), errs.ZapError(errs.ErrWrongRangeKeys)) } continue } index := rand.Intn(endIndex-startIndex) + startIndex region := t.tree.GetAt(index).(*regionItem).region if isInvolved(region, startKey, endKey) { return region } } return nil }".
+  "{ if v0.length() == 0 { return nil } if len(v1) == 0 { v1 = []KeyRange{NewKeyRange("""", """")} } for _, v2 := range rand.Perm(len(v1)) { var v3 int v4, v5 := v1[v2].StartKey, v1[v2].EndKey v6, v7 := v0.tree.GetWithIndex(&regionItem{region: &RegionInfo{meta: &metapb.Region{StartKey: v4}}}) if len(v5) != 0 { _, v3 = v0.tree.GetWithIndex(&regionItem{region: &RegionInfo{meta: &metapb.Region{StartKey: v5}}}) } else { v3 = v0.tree.Len() } if v7 != 0 && v6 == nil && v0.tree.GetAt(v7-1).(*regionItem).Contains(v4) { v7-- } if v3 <= v7 { if len(v5) > 0 && bytes.Compare(v4, v5) > 0 { } continue } v8 := rand.Intn(v3-v7) + v7 v9 := v0.tree.GetAt(v8).(*regionItem).region if isInvolved(v9, v4, v5) { return v9 } } return nil }".
 Proof. reflexivity. Qed.
 
 (* server/core/region_tree.go: (regionTree).TotalSize, body *)
 Lemma src_tree_TotalSize_ok : Gen_C06.src_tree_TotalSize =
-  "{ if t.length() == 0 { return 0 } return t.totalSize }".
+  "{ if v0.length() == 0 { return 0 } return v0.totalSize }".
 Proof. reflexivity. Qed.
 
 (* server/core/region_tree.go: ().newRegionTree, body *)
@@ -92,241 +92,241 @@ Proof. reflexivity. Qed.
 
 (* server/core/region.go: (RegionsInfo).GetRegion, body *)
 Lemma src_ri_GetRegion_ok : Gen_C06.src_ri_GetRegion =
-  "{ if item := r.regions.Get(regionID); item != nil { return item.region } return nil }".
+  "{ if v2 := v0.regions.Get(v1); v2 != nil { return v2.region } return nil }".
 Proof. reflexivity. Qed.
 
 (* server/core/region.go: (RegionsInfo).SetRegion, body *)
 Lemma src_ri_SetRegion_ok : Gen_C06.src_ri_SetRegion =
-  "{ var item *regionItem // Pointer to the *RegionInfo of this ID. var origin *RegionInfo // This is the original region information of this ID. var rangeChanged bool // This Region is new, or its range has changed. var peersChanged bool // This Region is new, or its peers have changed, including leader-change/pending/down. if item = r.regions.Get(region.GetID()); item != nil { origin = item.region rangeChanged = !bytes.Equal(origin.GetStartKey(), region.GetStartKey()) || !bytes.Equal(origin.GetEndKey(), region.GetEndKey()) if rangeChanged { r.tree.remove(origin) peersChanged = true } else { peersChanged = r.shouldRemoveFromSubTree(region, origin) } if peersChanged { r.removeRegionFromSubTree(origin) } item.region = region } else { rangeChanged = true peersChanged = true item = r.regions.AddNew(region) } if !rangeChanged { r.tree.updateStat(origin, region) } else { overlaps = r.tree.update(item) for _, old := range overlaps { r.RemoveRegion(r.GetRegion(old.GetID())) } } if !peersChanged { r.updateSubTreeStat(origin, region) } else { for _, peer := range region.GetVoters() { storeID := peer.GetStoreId() if peer.GetId() == region.leader.GetId() { store, ok := r.leaders[storeID] if !ok { store = newRegionTree() r.leaders[storeID] = store } store.update(item) } else { store, ok := r.followers[storeID] if !ok { store = newRegionTree() r.followers[storeID] = store } store.update(item) } } for _, peer := range region.GetLearners() { storeID := peer.GetStoreId() store, ok := r.learners[storeID] if !ok { store = newRegionTree() r.learners[storeID] = store } store.update(item) } for _, peer := range region.GetPendingPeers() { storeID := peer.GetStoreId() store, ok := r.pendingPeers[storeID] if !ok { store = newRegionTree() r.pendingPeers[storeID] = store } store.update(item) } } return }".
+  "{ var v3 *regionItem // Pointer to the *RegionInfo of this ID. var v4 *RegionInfo // This is the original region information of this ID. var v5 bool // This Region is new, or its range has changed. var v6 bool // This Region is new, or its peers have changed, including leader-change/pending/down. if v3 = v0.regions.Get(v1.GetID()); v3 != nil { v4 = v3.region v5 = !bytes.Equal(v4.GetStartKey(), v1.GetStartKey()) || !bytes.Equal(v4.GetEndKey(), v1.GetEndKey()) if v5 { v0.tree.remove(v4) v6 = true } else { v6 = v0.shouldRemoveFromSubTree(v1, v4) } if v6 { v0.removeRegionFromSubTree(v4) } v3.region = v1 } else { v5 = true v6 = true v3 = v0.regions.AddNew(v1) } if !v5 { v0.tree.updateStat(v4, v1) } else { v2 = v0.tree.update(v3) for _, v7 := range v2 { v0.RemoveRegion(v0.GetRegion(v7.GetID())) } } if !v6 { v0.updateSubTreeStat(v4, v1) } else { for _, v8 := range v1.GetVoters() { v9 := v8.GetStoreId() if v8.GetId() == v1.leader.GetId() { v10, v11 := v0.leaders[v9] if !v11 { v10 = newRegionTree() v0.leaders[v9] = v10 } v10.update(v3) } else { v12, v13 := v0.followers[v9] if !v13 { v12 = newRegionTree() v0.followers[v9] = v12 } v12.update(v3) } } for _, v14 := range v1.GetLearners() { v15 := v14.GetStoreId() v16, v17 := v0.learners[v15] if !v17 { v16 = newRegionTree() v0.learners[v15] = v16 } v16.update(v3) } for _, v18 := range v1.GetPendingPeers() { v19 := v18.GetStoreId() v20, v21 := v0.pendingPeers[v19] if !v21 { v20 = newRegionTree() v0.pendingPeers[v19] = v20 } v20.update(v3) } } return }".
 Proof. reflexivity. Qed.
 
 (* server/core/region.go: (RegionsInfo).updateSubTreeStat, body *)
 Lemma src_ri_updateSubTreeStat_ok : Gen_C06.src_ri_updateSubTreeStat =
-  "{ for _, peer := range region.GetVoters() { storeID := peer.GetStoreId() if peer.GetId() == region.leader.GetId() { if tree, ok := r.leaders[storeID]; ok { tree.updateStat(origin, region) } } else { if tree, ok := r.followers[storeID]; ok { tree.updateStat(origin, region) } } } for _, peer := range region.GetLearners() { if tree, ok := r.learners[peer.GetStoreId()]; ok { tree.updateStat(origin, region) } } for _, peer := range region.GetPendingPeers() { if tree, ok := r.pendingPeers[peer.GetStoreId()]; ok { tree.updateStat(origin, region) } } }".
+  "{ for _, v3 := range v2.GetVoters() { v4 := v3.GetStoreId() if v3.GetId() == v2.leader.GetId() { if v5, v6 := v0.leaders[v4]; v6 { v5.updateStat(v1, v2) } } else { if v7, v8 := v0.followers[v4]; v8 { v7.updateStat(v1, v2) } } } for _, v9 := range v2.GetLearners() { if v10, v11 := v0.learners[v9.GetStoreId()]; v11 { v10.updateStat(v1, v2) } } for _, v12 := range v2.GetPendingPeers() { if v13, v14 := v0.pendingPeers[v12.GetStoreId()]; v14 { v13.updateStat(v1, v2) } } }".
 Proof. reflexivity. Qed.
 
 (* server/core/region.go: (RegionsInfo).GetOverlaps, body *)
 Lemma src_ri_GetOverlaps_ok : Gen_C06.src_ri_GetOverlaps =
-  "{ return r.tree.getOverlaps(region) }".
+  "{ return v0.tree.getOverlaps(v1) }".
 Proof. reflexivity. Qed.
 
 (* server/core/region.go: (RegionsInfo).RemoveRegion, body *)
 Lemma src_ri_RemoveRegion_ok : Gen_C06.src_ri_RemoveRegion =
-  "{ r.tree.remove(region) r.regions.Delete(region.GetID()) r.removeRegionFromSubTree(region) }".
+  "{ v0.tree.remove(v1) v0.regions.Delete(v1.GetID()) v0.removeRegionFromSubTree(v1) }".
 Proof. reflexivity. Qed.
 
 (* server/core/region.go: (RegionsInfo).removeRegionFromSubTree, body *)
 Lemma src_ri_removeRegionFromSubTree_ok : Gen_C06.src_ri_removeRegionFromSubTree =
-  "{ for _, peer := range region.meta.GetPeers() { storeID := peer.GetStoreId() r.leaders[storeID].remove(region) r.followers[storeID].remove(region) r.learners[storeID].remove(region) r.pendingPeers[storeID].remove(region) } }".
+  "{ for _, v2 := range v1.meta.GetPeers() { v3 := v2.GetStoreId() v0.leaders[v3].remove(v1) v0.followers[v3].remove(v1) v0.learners[v3].remove(v1) v0.pendingPeers[v3].remove(v1) } }".
 Proof. reflexivity. Qed.
 
 (* server/core/region.go: (RegionsInfo).SearchRegion, body *)
 Lemma src_ri_SearchRegion_ok : Gen_C06.src_ri_SearchRegion =
-  "{ region := r.tree.search(regionKey) if region == nil { return nil } return r.GetRegion(region.GetID()) }".
+  "{ v2 := v0.tree.search(v1) if v2 == nil { return nil } return v0.GetRegion(v2.GetID()) }".
 Proof. reflexivity. Qed.
 
 (* server/core/region.go: (RegionsInfo).SearchPrevRegion, body *)
 Lemma src_ri_SearchPrevRegion_ok : Gen_C06.src_ri_SearchPrevRegion =
-  "{ region := r.tree.searchPrev(regionKey) if region == nil { return nil } return r.GetRegion(region.GetID()) }".
+  "{ v2 := v0.tree.searchPrev(v1) if v2 == nil { return nil } return v0.GetRegion(v2.GetID()) }".
 Proof. reflexivity. Qed.
 
 (* server/core/region.go: (RegionsInfo).ScanRange, body *)
 Lemma src_ri_ScanRange_ok : Gen_C06.src_ri_ScanRange =
-  "{ var res []*RegionInfo r.tree.scanRange(startKey, func(region *RegionInfo) bool { if len(endKey) > 0 && bytes.Compare(region.GetStartKey(), endKey) >= 0 { return false } if limit > 0 && len(res) >= limit { return false } res = append(res, r.GetRegion(region.GetID())) return true }) return res }".
+  "{ var v4 []*RegionInfo v0.tree.scanRange(v1, func(v5 *RegionInfo) bool { if len(v2) > 0 && bytes.Compare(v5.GetStartKey(), v2) >= 0 { return false } if v3 > 0 && len(v4) >= v3 { return false } v4 = append(v4, v0.GetRegion(v5.GetID())) return true }) return v4 }".
 Proof. reflexivity. Qed.
 
 (* server/core/region.go: (RegionsInfo).GetAdjacentRegions, body *)
 Lemma src_ri_GetAdjacentRegions_ok : Gen_C06.src_ri_GetAdjacentRegions =
-  "{ p, n := r.tree.getAdjacentRegions(region) var prev, next *RegionInfo if p != nil && bytes.Equal(p.region.GetEndKey(), region.GetStartKey()) { prev = r.GetRegion(p.region.GetID()) } if n != nil && bytes.Equal(region.GetEndKey(), n.region.GetStartKey()) { next = r.GetRegion(n.region.GetID()) } return prev, next }".
+  "{ v2, v3 := v0.tree.getAdjacentRegions(v1) var v4, v5 *RegionInfo if v2 != nil && bytes.Equal(v2.region.GetEndKey(), v1.GetStartKey()) { v4 = v0.GetRegion(v2.region.GetID()) } if v3 != nil && bytes.Equal(v1.GetEndKey(), v3.region.GetStartKey()) { v5 = v0.GetRegion(v3.region.GetID()) } return v4, v5 }".
 Proof. reflexivity. Qed.
 
 (* server/core/region.go: (RegionsInfo).GetAverageRegionSize, body *)
 Lemma src_ri_GetAverageRegionSize_ok : Gen_C06.src_ri_GetAverageRegionSize =
-  "{ if r.tree.length() == 0 { return 0 } return r.tree.TotalSize() / int64(r.tree.length()) }".
+  "{ if v0.tree.length() == 0 { return 0 } return v0.tree.TotalSize() / int64(v0.tree.length()) }".
 Proof. reflexivity. Qed.
 
 (* server/core/region.go: (RegionsInfo).GetStoreRegions, body *)
 Lemma src_ri_GetStoreRegions_ok : Gen_C06.src_ri_GetStoreRegions =
-  "{ regions := make([]*RegionInfo, 0, r.GetStoreRegionCount(storeID)) if leaders, ok := r.leaders[storeID]; ok { regions = append(regions, leaders.scanRanges()...) } if followers, ok := r.followers[storeID]; ok { regions = append(regions, followers.scanRanges()...) } if learners, ok := r.learners[storeID]; ok { regions = append(regions, learners.scanRanges()...) } return regions }".
+  "{ v2 := make([]*RegionInfo, 0, v0.GetStoreRegionCount(v1)) if v3, v4 := v0.leaders[v1]; v4 { v2 = append(v2, v3.scanRanges()...) } if v5, v6 := v0.followers[v1]; v6 { v2 = append(v2, v5.scanRanges()...) } if v7, v8 := v0.learners[v1]; v8 { v2 = append(v2, v7.scanRanges()...) } return v2 }".
 Proof. reflexivity. Qed.
 
 (* server/core/region.go: (RegionsInfo).GetStoreLeaderCount, body *)
 Lemma src_ri_GetStoreLeaderCount_ok : Gen_C06.src_ri_GetStoreLeaderCount =
-  "{ return r.leaders[storeID].length() }".
+  "{ return v0.leaders[v1].length() }".
 Proof. reflexivity. Qed.
 
 (* server/core/region.go: (RegionsInfo).GetStoreFollowerCount, body *)
 Lemma src_ri_GetStoreFollowerCount_ok : Gen_C06.src_ri_GetStoreFollowerCount =
-  "{ return r.followers[storeID].length() }".
+  "{ return v0.followers[v1].length() }".
 Proof. reflexivity. Qed.
 
 (* server/core/region.go: (RegionsInfo).GetStoreLearnerCount, body *)
 Lemma src_ri_GetStoreLearnerCount_ok : Gen_C06.src_ri_GetStoreLearnerCount =
-  "{ return r.learners[storeID].length() }".
+  "{ return v0.learners[v1].length() }".
 Proof. reflexivity. Qed.
 
 (* server/core/region.go: (RegionsInfo).GetStorePendingPeerCount, body *)
 Lemma src_ri_GetStorePendingPeerCount_ok : Gen_C06.src_ri_GetStorePendingPeerCount =
-  "{ return r.pendingPeers[storeID].length() }".
+  "{ return v0.pendingPeers[v1].length() }".
 Proof. reflexivity. Qed.
 
 (* server/core/region.go: (RegionsInfo).GetStoreLeaderRegionSize, body *)
 Lemma src_ri_GetStoreLeaderRegionSize_ok : Gen_C06.src_ri_GetStoreLeaderRegionSize =
-  "{ return r.leaders[storeID].TotalSize() }".
+  "{ return v0.leaders[v1].TotalSize() }".
 Proof. reflexivity. Qed.
 
 (* server/core/region.go: (RegionsInfo).GetStoreFollowerRegionSize, body *)
 Lemma src_ri_GetStoreFollowerRegionSize_ok : Gen_C06.src_ri_GetStoreFollowerRegionSize =
-  "{ return r.followers[storeID].TotalSize() }".
+  "{ return v0.followers[v1].TotalSize() }".
 Proof. reflexivity. Qed.
 
 (* server/core/region.go: (RegionsInfo).GetStoreLearnerRegionSize, body *)
 Lemma src_ri_GetStoreLearnerRegionSize_ok : Gen_C06.src_ri_GetStoreLearnerRegionSize =
-  "{ return r.learners[storeID].TotalSize() }".
+  "{ return v0.learners[v1].TotalSize() }".
 Proof. reflexivity. Qed.
 
 (* server/core/region.go: (RegionsInfo).RandLeaderRegion, body *)
 Lemma src_ri_RandLeaderRegion_ok : Gen_C06.src_ri_RandLeaderRegion =
-  "{ return r.leaders[storeID].RandomRegion(ranges) }".
+  "{ return v0.leaders[v1].RandomRegion(v2) }".
 Proof. reflexivity. Qed.
 
 (* server/core/region.go: (RegionsInfo).RandFollowerRegion, body *)
 Lemma src_ri_RandFollowerRegion_ok : Gen_C06.src_ri_RandFollowerRegion =
-  "{ return r.followers[storeID].RandomRegion(ranges) }".
+  "{ return v0.followers[v1].RandomRegion(v2) }".
 Proof. reflexivity. Qed.
 
 (* server/core/region.go: (RegionsInfo).RandLearnerRegion, body *)
 Lemma src_ri_RandLearnerRegion_ok : Gen_C06.src_ri_RandLearnerRegion =
-  "{ return r.learners[storeID].RandomRegion(ranges) }".
+  "{ return v0.learners[v1].RandomRegion(v2) }".
 Proof. reflexivity. Qed.
 
 (* server/core/region.go: (RegionsInfo).RandPendingRegion, body *)
 Lemma src_ri_RandPendingRegion_ok : Gen_C06.src_ri_RandPendingRegion =
-  "{ return r.pendingPeers[storeID].RandomRegion(ranges) }".
+  "{ return v0.pendingPeers[v1].RandomRegion(v2) }".
 Proof. reflexivity. Qed.
 
 (* server/core/region.go: (RegionsInfo).Len, body *)
 Lemma src_ri_Len_ok : Gen_C06.src_ri_Len =
-  "{ return r.regions.Len() }".
+  "{ return v0.regions.Len() }".
 Proof. reflexivity. Qed.
 
 (* server/core/region.go: (RegionsInfo).TreeLen, body *)
 Lemma src_ri_TreeLen_ok : Gen_C06.src_ri_TreeLen =
-  "{ return r.tree.length() }".
+  "{ return v0.tree.length() }".
 Proof. reflexivity. Qed.
 
 (* server/core/region_tree.go: (regionItem).Less, body *)
 Lemma src_item_Less_ok : Gen_C06.src_item_Less =
-  "{ left := r.region.GetStartKey() right := other.(*regionItem).region.GetStartKey() return bytes.Compare(left, right) < 0 }".
+  "{ v2 := v0.region.GetStartKey() v3 := v1.(*regionItem).region.GetStartKey() return bytes.Compare(v2, v3) < 0 }".
 Proof. reflexivity. Qed.
 
 (* server/core/region_tree.go: (regionItem).Contains, body *)
 Lemma src_item_Contains_ok : Gen_C06.src_item_Contains =
-  "{ start, end := r.region.GetStartKey(), r.region.GetEndKey() return bytes.Compare(key, start) >= 0 && (len(end) == 0 || bytes.Compare(key, end) < 0) }".
+  "{ v2, v3 := v0.region.GetStartKey(), v0.region.GetEndKey() return bytes.Compare(v1, v2) >= 0 && (len(v3) == 0 || bytes.Compare(v1, v3) < 0) }".
 Proof. reflexivity. Qed.
 
 (* server/core/region.go: ().isInvolved, body *)
 Lemma src_isInvolved_ok : Gen_C06.src_isInvolved =
-  "{ return bytes.Compare(region.GetStartKey(), startKey) >= 0 && (len(endKey) == 0 || (len(region.GetEndKey()) > 0 && bytes.Compare(region.GetEndKey(), endKey) <= 0)) }".
+  "{ return bytes.Compare(v0.GetStartKey(), v1) >= 0 && (len(v2) == 0 || (len(v0.GetEndKey()) > 0 && bytes.Compare(v0.GetEndKey(), v2) <= 0)) }".
 Proof. reflexivity. Qed.
 
 (* server/core/region.go: (RegionsInfo).shouldRemoveFromSubTree, body *)
 Lemma src_shouldRemoveFromSubTree_ok : Gen_C06.src_shouldRemoveFromSubTree =
-  "{ return origin.leader.GetId() != region.leader.GetId() || !SortedPeersEqual(origin.GetVoters(), region.GetVoters()) || !SortedPeersEqual(origin.GetLearners(), region.GetLearners()) || !SortedPeersEqual(origin.GetPendingPeers(), region.GetPendingPeers()) }".
+  "{ return v2.leader.GetId() != v1.leader.GetId() || !SortedPeersEqual(v2.GetVoters(), v1.GetVoters()) || !SortedPeersEqual(v2.GetLearners(), v1.GetLearners()) || !SortedPeersEqual(v2.GetPendingPeers(), v1.GetPendingPeers()) }".
 Proof. reflexivity. Qed.
 
 (* server/core/region.go: ().SortedPeersEqual, body *)
 Lemma src_SortedPeersEqual_ok : Gen_C06.src_SortedPeersEqual =
-  "{ if len(peersA) != len(peersB) { return false } for i, peerA := range peersA { peerB := peersB[i] if peerA.GetStoreId() != peerB.GetStoreId() || peerA.GetId() != peerB.GetId() { return false } } return true }".
+  "{ if len(v0) != len(v1) { return false } for v2, v3 := range v0 { v4 := v1[v2] if v3.GetStoreId() != v4.GetStoreId() || v3.GetId() != v4.GetId() { return false } } return true }".
 Proof. reflexivity. Qed.
 
 (* server/core/region.go: (peerSlice).Less, body *)
 Lemma src_peerSlice_Less_ok : Gen_C06.src_peerSlice_Less =
-  "{ return s[i].GetId() < s[j].GetId() }".
+  "{ return v0[v1].GetId() < v0[v2].GetId() }".
 Proof. reflexivity. Qed.
 
 (* server/core/region.go: ().classifyVoterAndLearner, body *)
 Lemma src_classifyVoterAndLearner_ok : Gen_C06.src_classifyVoterAndLearner =
-  "{ learners := make([]*metapb.Peer, 0, 1) voters := make([]*metapb.Peer, 0, len(region.meta.Peers)) for _, p := range region.meta.Peers { if IsLearner(p) { learners = append(learners, p) } else { voters = append(voters, p) } } sort.Sort(peerSlice(learners)) sort.Sort(peerSlice(voters)) region.learners = learners region.voters = voters }".
+  "{ v1 := make([]*metapb.Peer, 0, 1) v2 := make([]*metapb.Peer, 0, len(v0.meta.Peers)) for _, v3 := range v0.meta.Peers { if IsLearner(v3) { v1 = append(v1, v3) } else { v2 = append(v2, v3) } } sort.Sort(peerSlice(v1)) sort.Sort(peerSlice(v2)) v0.learners = v1 v0.voters = v2 }".
 Proof. reflexivity. Qed.
 
 (* server/core/region.go: (regionMap).AddNew, body *)
 Lemma src_regionMap_AddNew_ok : Gen_C06.src_regionMap_AddNew =
-  "{ item := &regionItem{region: region} rm[region.GetID()] = item return item }".
+  "{ v2 := &regionItem{region: v1} v0[v1.GetID()] = v2 return v2 }".
 Proof. reflexivity. Qed.
 
 (* server/core/region.go: (regionMap).Get, body *)
 Lemma src_regionMap_Get_ok : Gen_C06.src_regionMap_Get =
-  "{ return rm[id] }".
+  "{ return v0[v1] }".
 Proof. reflexivity. Qed.
 
 (* server/core/region.go: (regionMap).Delete, body *)
 Lemma src_regionMap_Delete_ok : Gen_C06.src_regionMap_Delete =
-  "{ delete(rm, id) }".
+  "{ delete(v0, v1) }".
 Proof. reflexivity. Qed.
 
 (* server/core/basic_cluster.go: (BasicCluster).getRelevantRegions, body *)
 Lemma src_bc_getRelevantRegions_ok : Gen_C06.src_bc_getRelevantRegions =
-  "{ bc.RLock() defer bc.RUnlock() origin = bc.Regions.GetRegion(region.GetID()) if origin == nil || !bytes.Equal(origin.GetStartKey(), region.GetStartKey()) || !bytes.Equal(origin.GetEndKey(), region.GetEndKey()) { overlaps = bc.Regions.GetOverlaps(region) } return }".
+  "{ v0.RLock() defer v0.RUnlock() v2 = v0.Regions.GetRegion(v1.GetID()) if v2 == nil || !bytes.Equal(v2.GetStartKey(), v1.GetStartKey()) || !bytes.Equal(v2.GetEndKey(), v1.GetEndKey()) { v3 = v0.Regions.GetOverlaps(v1) } return }".
 Proof. reflexivity. Qed.
 
 (* server/core/basic_cluster.go: (BasicCluster).PreCheckPutRegion, body *)
 Lemma src_bc_PreCheckPutRegion_ok : Gen_C06.src_bc_PreCheckPutRegion =
-  "{ origin, overlaps := bc.getRelevantRegions(region) for _, item := range overlaps { if region.GetRegionEpoch().GetVersion() < item.GetRegionEpoch().GetVersion() { return nil, errRegionIsStale(region.GetMeta(), item.GetMeta()) } } if origin == nil { return nil, nil } r := region.GetRegionEpoch() o := origin.GetRegionEpoch() isTermBehind := region.GetTerm() > 0 && region.GetTerm() < origin.GetTerm() if isTermBehind || r.GetVersion() < o.GetVersion() || r.GetConfVer() < o.GetConfVer() { return origin, errRegionIsStale(region.GetMeta(), origin.GetMeta()) } return origin, nil }".
+  "{ v2, v3 := v0.getRelevantRegions(v1) for _, v4 := range v3 { if v1.GetRegionEpoch().GetVersion() < v4.GetRegionEpoch().GetVersion() { return nil, errRegionIsStale(v1.GetMeta(), v4.GetMeta()) } } if v2 == nil { return nil, nil } v5 := v1.GetRegionEpoch() v6 := v2.GetRegionEpoch() v7 := v1.GetTerm() > 0 && v1.GetTerm() < v2.GetTerm() if v7 || v5.GetVersion() < v6.GetVersion() || v5.GetConfVer() < v6.GetConfVer() { return v2, errRegionIsStale(v1.GetMeta(), v2.GetMeta()) } return v2, nil }".
 Proof. reflexivity. Qed.
 
 (* server/core/basic_cluster.go: (BasicCluster).PutRegion, body *)
 Lemma src_bc_PutRegion_ok : Gen_C06.src_bc_PutRegion =
-  "{ bc.Lock() defer bc.Unlock() return bc.Regions.SetRegion(region) }".
+  "{ v0.Lock() defer v0.Unlock() if v1.term == 0 { if v2 := v0.Regions.GetRegion(v1.GetID()); v2 != nil { v1.term = v2.term } } return v0.Regions.SetRegion(v1) }".
 Proof. reflexivity. Qed.
 
 (* server/core/region_storage.go: (RegionStorage).SaveRegion, body *)
 Lemma src_rs_SaveRegion_ok : Gen_C06.src_rs_SaveRegion =
-  "{ region, err := encryption.EncryptRegion(region, s.encryptionKeyManager) if err != nil { return err } s.mu.Lock() defer s.mu.Unlock() if s.cacheSize < s.batchSize-1 { s.batchRegions[regionPath(region.GetId())] = region s.cacheSize++ s.flushTime = time.Now().Add(s.flushRate) return nil } s.batchRegions[regionPath(region.GetId())] = region err = s.flush() if err != nil { return err } return nil }".
+  "{ v1, v2 := encryption.EncryptRegion(v1, v0.encryptionKeyManager) if v2 != nil { return v2 } v0.mu.Lock() defer v0.mu.Unlock() if v0.cacheSize < v0.batchSize-1 { v0.batchRegions[regionPath(v1.GetId())] = v1 v0.cacheSize++ v0.flushTime = time.Now().Add(v0.flushRate) return nil } v0.batchRegions[regionPath(v1.GetId())] = v1 v2 = v0.flush() if v2 != nil { return v2 } return nil }".
 Proof. reflexivity. Qed.
 
 (* server/core/region_storage.go: (RegionStorage).FlushRegion, body *)
 Lemma src_rs_FlushRegion_ok : Gen_C06.src_rs_FlushRegion =
-  "{ s.mu.Lock() defer s.mu.Unlock() return s.flush() }".
+  "{ v0.mu.Lock() defer v0.mu.Unlock() return v0.flush() }".
 Proof. reflexivity. Qed.
 
 (* server/core/region_storage.go: (RegionStorage).flush, body *)
 Lemma src_rs_flush_ok : Gen_C06.src_rs_flush =
-  "{ if err := s.SaveRegions(s.batchRegions); err != nil { return err } s.cacheSize = 0 s.batchRegions = make(map[string]*metapb.Region, s.batchSize) return nil }".
+  "{ if v1 := v0.SaveRegions(v0.batchRegions); v1 != nil { return v1 } v0.cacheSize = 0 v0.batchRegions = make(map[string]*metapb.Region, v0.batchSize) return nil }".
 Proof. reflexivity. Qed.
 
 (* server/core/region_storage.go: (RegionStorage).Remove, body -- model: delete_region on the write-back backend
    = drop the pending entry of the batch (cacheSize untouched), then the leveldb key *)
 Lemma src_rs_Remove_ok : Gen_C06.src_rs_Remove =
-  "{ s.mu.Lock() defer s.mu.Unlock() delete(s.batchRegions, key) return s.LeveldbKV.Remove(key) }".
+  "{ v0.mu.Lock() defer v0.mu.Unlock() delete(v0.batchRegions, v1) return v0.LeveldbKV.Remove(v1) }".
 Proof. reflexivity. Qed.
 
 (* server/core/region_storage.go: ().deleteRegion, body *)
 Lemma src_rs_deleteRegion_ok : Gen_C06.src_rs_deleteRegion =
-  "{ return kv.Remove(regionPath(region.GetId())) }".
+  "{ return v0.Remove(regionPath(v1.GetId())) }".
 Proof. reflexivity. Qed.
 
 (* server/core/storage.go: (Storage).SaveRegion, body *)
 Lemma src_st_SaveRegion_ok : Gen_C06.src_st_SaveRegion =
-  "{ if atomic.LoadInt32(&s.useRegionStorage) > 0 { return s.regionStorage.SaveRegion(region) } return saveRegion(s.Base, s.encryptionKeyManager, region) }".
+  "{ if atomic.LoadInt32(&v0.useRegionStorage) > 0 { return v0.regionStorage.SaveRegion(v1) } return saveRegion(v0.Base, v0.encryptionKeyManager, v1) }".
 Proof. reflexivity. Qed.
 
 (* server/core/storage.go: (Storage).DeleteRegion, body *)
 Lemma src_st_DeleteRegion_ok : Gen_C06.src_st_DeleteRegion =
-  "{ if atomic.LoadInt32(&s.useRegionStorage) > 0 { return deleteRegion(s.regionStorage, region) } return deleteRegion(s.Base, region) }".
+  "{ if atomic.LoadInt32(&v0.useRegionStorage) > 0 { return deleteRegion(v0.regionStorage, v1) } return deleteRegion(v0.Base, v1) }".
 Proof. reflexivity. Qed.
 
 (* server/core/storage.go: (Storage).LoadRegion, body *)
 Lemma src_st_LoadRegion_ok : Gen_C06.src_st_LoadRegion =
-  "{ if atomic.LoadInt32(&s.useRegionStorage) > 0 { return loadRegion(s.regionStorage, s.encryptionKeyManager, regionID, region) } return loadRegion(s.Base, s.encryptionKeyManager, regionID, region) }".
+  "{ if atomic.LoadInt32(&v0.useRegionStorage) > 0 { return loadRegion(v0.regionStorage, v0.encryptionKeyManager, v1, v2) } return loadRegion(v0.Base, v0.encryptionKeyManager, v1, v2) }".
 Proof. reflexivity. Qed.
 
 (* server/core/storage.go: (Storage).Flush, body *)
 Lemma src_st_Flush_ok : Gen_C06.src_st_Flush =
-  "{ if s.regionStorage != nil { return s.regionStorage.FlushRegion() } return nil }".
+  "{ if v0.regionStorage != nil { return v0.regionStorage.FlushRegion() } return nil }".
 Proof. reflexivity. Qed.
 
 (* server/core/region.go: ().RegionFromHeartbeat, body *)
 Lemma src_RegionFromHeartbeat_ok : Gen_C06.src_RegionFromHeartbeat =
-  "{ regionSize := heartbeat.GetApproximateSize() / (1 << 20) if regionSize < EmptyRegionApproximateSize { regionSize = EmptyRegionApproximateSize } region := &RegionInfo{ term: heartbeat.GetTerm(), meta: heartbeat.GetRegion(), leader: heartbeat.GetLeader(), downPeers: heartbeat.GetDownPeers(), pendingPeers: heartbeat.GetPendingPeers(), writtenBytes: heartbeat.GetBytesWritten(), writtenKeys: heartbeat.GetKeysWritten(), readBytes: heartbeat.GetBytesRead(), readKeys: heartbeat.GetKeysRead(), approximateSize: int64(regionSize), approximateKeys: int64(heartbeat.GetApproximateKeys()), interval: heartbeat.GetInterval(), replicationStatus: heartbeat.GetReplicationStatus(), QueryStats: heartbeat.GetQueryStats(), } for _, opt := range opts { opt(region) } if region.writtenKeys >= ImpossibleFlowSize || region.writtenBytes >= ImpossibleFlowSize { region.writtenKeys = 0 region.writtenBytes = 0 } if region.readKeys >= ImpossibleFlowSize || region.readBytes >= ImpossibleFlowSize { region.readKeys = 0 region.readBytes = 0 } sort.Sort(peerStatsSlice(region.downPeers)) sort.Sort(peerSlice(region.pendingPeers)) classifyVoterAndLearner(region) return region }".
+  "{ v2 := v0.GetApproximateSize() / (1 << 20) if v2 < EmptyRegionApproximateSize { v2 = EmptyRegionApproximateSize } v3 := &RegionInfo{ term: v0.GetTerm(), meta: v0.GetRegion(), leader: v0.GetLeader(), downPeers: v0.GetDownPeers(), pendingPeers: v0.GetPendingPeers(), writtenBytes: v0.GetBytesWritten(), writtenKeys: v0.GetKeysWritten(), readBytes: v0.GetBytesRead(), readKeys: v0.GetKeysRead(), approximateSize: int64(v2), approximateKeys: int64(v0.GetApproximateKeys()), interval: v0.GetInterval(), replicationStatus: v0.GetReplicationStatus(), QueryStats: v0.GetQueryStats(), } for _, v4 := range v1 { v4(v3) } if v3.writtenKeys >= ImpossibleFlowSize || v3.writtenBytes >= ImpossibleFlowSize { v3.writtenKeys = 0 v3.writtenBytes = 0 } if v3.readKeys >= ImpossibleFlowSize || v3.readBytes >= ImpossibleFlowSize { v3.readKeys = 0 v3.readBytes = 0 } sort.Sort(peerStatsSlice(v3.downPeers)) sort.Sort(peerSlice(v3.pendingPeers)) classifyVoterAndLearner(v3) return v3 }".
 Proof. reflexivity. Qed.
